@@ -28,6 +28,10 @@ func (f *g2lFn) params() []nameType {
 				out = append(out, nameType{"_", f.leanType(t, fld)})
 			}
 			for _, n := range fld.Names {
+				if pv, ok := f.p.info.Defs[n].(*types.Var); ok && f.isViewObj(pv) {
+					out = append(out, nameType{f.name(n), "TokRef"})
+					continue
+				}
 				out = append(out, nameType{f.name(n), f.leanType(t, fld)})
 			}
 		}
@@ -519,6 +523,9 @@ func g2lEmitUnit(u *g2lUnit) string {
 			b.WriteString(get.String() + "\n" + set.String() + "\n")
 		}
 	}
+	if len(u.viewVars) > 0 {
+		b.WriteString(g2lTokRefText)
+	}
 	b.WriteString(u.preamble)
 	for _, name := range u.order(p) {
 		fd := p.decls[name]
@@ -571,3 +578,40 @@ func sortedKeys(m map[string]string) []string {
 	sort.Strings(out)
 	return out
 }
+
+// g2lTokRefText: a Go `[]string` that shares its array with the tokens of a heap Line (args of File.add, toks of
+// parseVersionInterval): the line and the offset of the view's first element; the view always extends to the end of the tokens.
+const g2lTokRefText = `/-- a ` + "`[]string`" + ` that aliases the tail of a line's tokens: the owning line and the offset of its first element -/
+structure TokRef where
+  owner : Int
+  lo : Int
+  deriving DecidableEq, Repr, Inhabited
+
+/-- ` + "`P.Token[k:]`" + ` as a view -/
+def TokRef.make (p : Int) (k : Int) (world : Heap) : M TokRef := do
+  let l ← heapGet world.lines p
+  let _ ← sliceFrom l.Token k
+  pure { owner := p, lo := k }
+def TokRef.toks (r : TokRef) (world : Heap) : M (List Bytes) := do
+  let l ← heapGet world.lines r.owner
+  sliceFrom l.Token r.lo
+def TokRef.len (r : TokRef) (world : Heap) : M Int := do
+  let t ← r.toks world
+  pure (ModVerif.GoRt.len t)
+def TokRef.get (r : TokRef) (i : Int) (world : Heap) : M Bytes := do
+  let t ← r.toks world
+  idxL t i
+def TokRef.drop (r : TokRef) (k : Int) (world : Heap) : M TokRef := do
+  let t ← r.toks world
+  let _ ← sliceFrom t k
+  pure { r with lo := r.lo + k }
+/-- ` + "`v[i] = x`" + `: a store into the line's token array -/
+def TokRef.set (r : TokRef) (i : Int) (x : Bytes) (world : Heap) : M Heap := do
+  let l ← heapGet world.lines r.owner
+  let t ← sliceFrom l.Token r.lo
+  let _ ← idxL t i
+  let t' ← setIdxL l.Token (r.lo + i) x
+  let ls ← heapSet world.lines r.owner { l with Token := t' }
+  pure { world with lines := ls }
+
+`
